@@ -149,8 +149,12 @@ func checkSettingsRace(env *vh.Env, rep *vh.Report) {
 		if len(top) > 6 {
 			top = top[:6]
 		}
-		rep.Fail("property", key, fmt.Sprintf("the race detector reports a data race between a configuration update and the sender's readers of the settings (frames: %s): "+
+		summary := fmt.Sprintf("the race detector reports a data race between a configuration update and the sender's readers of the settings (frames: %s): "+
 			"ApplyConfig writes logsinkMaxWaitTime / logsinkMaxBufferSize / logsinkZipMinSize without synchronisation while the background goroutine and SendDirect read them",
-			strings.Join(top, ", ")), replay)
+			strings.Join(top, ", "))
+		if key == "race:other" {
+			summary = fmt.Sprintf("the race detector reports a data race while the background loop, a producer, a SendDirect caller and configuration updates run on one sender (frames: %s)", strings.Join(top, ", "))
+		}
+		rep.Fail("property", key, summary, replay)
 	}
 }
